@@ -44,7 +44,7 @@ class Polynomial:
         return self.args[item]
 
     def __eq__(self, other):
-        if other == 0 and (not self.args or self.args == [[0]]): return True
+        if other == 0 and not any(term[0] for term in self.args): return True
         if other == 1 and self.args == [[1]]: return True
         if self.__class__ != other.__class__: return False
         return self.args == other.args
@@ -154,9 +154,7 @@ class Polynomial:
         return res
 
     def __bool__(self):
-        if len(self.args) == 1:
-            return bool(self.args[0][0])
-        return bool(self.args)
+        return any(term[0] for term in self.args)
 
 
 @dataclass
